@@ -101,6 +101,19 @@ func (fr *Frame) execInstr(ins ssa.Instruction, st *State) {
 			return
 		}
 		v := fr.term(x.Val)
+		if al, ok := x.Addr.(*ssa.Alloc); ok && al.Heap {
+			// remember on which allocation a captured slice variable currently lives (see loop.go: owned accumulators)
+			if r.cellOrigin == nil {
+				r.cellOrigin = map[*ssa.Alloc]string{}
+			}
+			if o, ok := r.sliceArr[v.S]; ok {
+				r.cellOrigin[al] = o
+			} else if v.S == "slice_nil" {
+				r.cellOrigin[al] = "new_own"
+			} else {
+				delete(r.cellOrigin, al)
+			}
+		}
 		switch a := addr.(type) {
 		case *Loc:
 			fr.locNilCheck(st, a, x.Pos())
@@ -344,6 +357,11 @@ func (fr *Frame) execUnOp(x *ssa.UnOp, st *State) {
 			unsupported("load from %T", addr)
 		}
 		fr.set(x, t)
+		if al, ok := x.X.(*ssa.Alloc); ok && al.Heap {
+			if o, ok := r.cellOrigin[al]; ok {
+				r.recordSliceTag(fr.vals[x], o)
+			}
+		}
 		if l, ok := addr.(*Loc); !ok || l.kind != rootLocal {
 			r.knownFacts(st, fr.vals[x].(Term), T)
 		}
@@ -599,6 +617,15 @@ func (r *Run) mapVal(st *State, mt *types.Map, m, k Term) Term {
 }
 func (r *Run) mapLen(st *State, mt *types.Map, m Term) Term {
 	return sel(r.heapGet(st, r.eng.heapKeyMapLen(mt)), m)
+}
+
+func (r *Run) recordSliceTag(v Val, tag string) {
+	if t, ok := v.(Term); ok {
+		if r.sliceArr == nil {
+			r.sliceArr = map[string]string{}
+		}
+		r.sliceArr[t.S] = tag
+	}
 }
 
 func (r *Run) recordSliceArr(v Val, ref Term) {
